@@ -95,4 +95,10 @@ theorem extra_functions_are_spec : Helm.Gen.extraFuncs = Helm.Spec.extraFuncs :=
 /-- DNS resolution is stubbed unless `EnableDNS` is set. -/
 theorem dns_stubbed_unless_enabled : Helm.Gen.dnsStubbedUnlessEnabled = true := by decide
 
+/-- Templates are parsed and executed by ranging over the sorted key list (the model's
+`sortTemplates` order), never over the template map itself. -/
+theorem render_loops_range_over_sorted_keys :
+    Helm.Gen.renderLoops = ["Parse:keys", "ExecuteTemplate:keys"] ∧ Helm.Gen.renderKeysFrom = "sortTemplates" := by
+  decide
+
 end Helm.Props.C05
